@@ -262,14 +262,18 @@ theorem C01_recv_runs_only_allowed {c : Conf} (h : Reach C O st0 script picks c)
 
 /-! ### established only when nothing mandatory is left -/
 
-/-- **ready is sound**: if success is reported although neither the caller nor any feature's
+/-- **ready is sound** — *partial*: the clause of the property ("established only … with no eligible
+mandatory feature of the last advertisement left un-negotiated") is proved under the hypothesis
+`hf` that no feature's own mask carried `Ready`; without it the clause is **false for the code**
+(`C01_ready_sound_feat_fails` below, `known:` finding `ready-sound|feature-ready-leaves-mandatory`):
+`BindResource` returns `Ready` itself. If success is reported although neither the caller nor any feature's
 own mask supplied the ready bit — i.e. the library itself decided that negotiation is
 complete — then the final state is `stb ||| Ready` for the state `stb` in which that decision
 was taken, and no mandatory, negotiable feature of the last features list whose prerequisites
 hold in `stb` is left un-negotiated: neither one of the cached ones (configured, eligible when
 the list was read) nor one of the skipped ones (configured, not eligible when the list was read
 but possibly eligible by now) -/
-theorem C01_ready_sound {c : Conf} (h : Reach C O st0 script picks c) (hd : c.pc = .done)
+theorem C01_ready_sound_partial {c : Conf} (h : Reach C O st0 script picks c) (hd : c.pc = .done)
     (h0 : has st0 bReady = false) (hf : ¬ FeatReady c.tr) :
     has c.st bReady = true ∧ ∃ stb, c.st = stb ||| bReady ∧ NoMandLeft c stb := by
   have hr := (invC_reach h).doneReady hd
@@ -278,6 +282,33 @@ theorem C01_ready_sound {c : Conf} (h : Reach C O st0 script picks c) (hd : c.pc
   · rw [h0] at h1; cases h1
   · exact absurd h1 hf
   · exact h1
+
+def fRdy : Feature := ⟨0, ⟨3, 1⟩, 0, 0, true⟩
+def fMand2 : Feature := ⟨1, ⟨4, 1⟩, 0, 0, true⟩
+/-- the `Negotiate` of `fRdy` returns the ready bit itself (as `BindResource` does) -/
+def rdyO : Oracle :=
+  { neg := fun _ f _ => if f.id == 0 then ⟨bReady, false, false⟩ else ⟨0, false, false⟩,
+    list := fun _ _ _ => ⟨false, false⟩, parseErr := fun _ _ _ => false, fault := fun _ => false,
+    cancel := fun _ => false, block := fun _ => false, dlRd := true, dlWr := true,
+    layer := fun _ _ => false }
+
+/-- **the full-strength clause fails** (negation witness; review A, C01-1): two mandatory,
+negotiable, eligible features are advertised; the map iteration picks the one whose `Negotiate`
+returns `Ready` in its own mask (what `BindResource` does); the selection loop leaves the list
+after a mandatory feature, `negotiateSession` applies the mask and its loop `for s.state&Ready == 0`
+ends: the session is reported established while the other mandatory feature of the same
+advertisement is cached, eligible and was never negotiated. Replayed on the real code by the
+corpus line `C01 run 0 0 3.1:…:4…;4.1… H1;A3.1.1,4.1.1 3.1 -` (in the other map order both are
+negotiated). -/
+theorem C01_ready_sound_feat_fails :
+    ∃ c : Conf, Reach [fRdy, fMand2] rdyO 0
+        [.hdr true, .adv [.feat ⟨3, 1⟩ true, .feat ⟨4, 1⟩ true]] [⟨3, 1⟩] c ∧
+      c.pc = .done ∧ featReadyB c.tr = true ∧ ¬ NoMandLeft c c.st := by
+  refine ⟨_, ⟨30, rfl⟩, by decide, by decide, ?_⟩
+  intro h
+  have := h ⟨true, fMand2⟩ (by decide) rfl rfl (by decide)
+  revert this
+  decide
 
 /-- **nothing of the last advertisement is lost**: when the initiator reports success, every
 child element of the last features list (`c.curAdv`) that names a configured feature `f` is
@@ -320,7 +351,7 @@ theorem C01_ready_sound_unique_ns {c : Conf} (h : Reach C O st0 script picks c) 
         ∃ e ∈ c.cache ++ c.skipped, e.f = f ∧
           (e.req = true → f.negotiable = true → eligible stb f = true →
             c.negd.contains f.name.ns = true) := by
-  obtain ⟨_, stb, hst, hno⟩ := C01_ready_sound h hd h0 hf
+  obtain ⟨_, stb, hst, hno⟩ := C01_ready_sound_partial h hd h0 hf
   refine ⟨stb, hst, ?_⟩
   intro name req f hm hfind
   have hfC : f ∈ C := List.mem_of_find?_eq_some hfind
